@@ -81,28 +81,49 @@ def bfs (s : SysDesc α) (root : String) : List (String × List (Node α)) :=
 def descendants (s : SysDesc α) (p : String) : List String :=
   ((bfs s p).flatMap fun e => e.2.map Node.name).eraseDups
 
-/-- the `childs` dict of one block: BFS from `root`, dropping `skip` (the mux and its descendants) -/
-def childsDict (s : SysDesc α) (root : String) (skip : List String) : PV α :=
-  .dict ((bfs s root).foldl (fun acc e =>
-    dictSet acc e.1 (.list ((e.2.filter fun n => !skip.contains n.name).map fun n => PV.dict (dumpComp n.comp)))) [])
+/-- one top-level block of the document: a Source, or the PMux (`isMux`), with its `childs` entries
+    `(parent name, children)` in BFS order after dropping the mux and its descendants -/
+structure Block (α : Type) where
+  root : Node α
+  isMux : Bool
+  childs : List (String × List (Node α))
 
-/-- `System.save` as a document value; `ver = sysloss.__version__`, `topo` = observed topological order -/
-def save (ver : String) (topo : List String) (s : SysDesc α) : PV α :=
+/-- the `childs` entries of one block: BFS from `root`, dropping `skip` (the mux and its descendants) -/
+def childsOf (s : SysDesc α) (root : String) (skip : List String) : List (String × List (Node α)) :=
+  (bfs s root).map fun e => (e.1, e.2.filter fun n => !skip.contains n.name)
+
+/-- the traversal of `System.save`: one block per Source in topological order, then the PMux -/
+def layoutOf (topo : List String) (s : SysDesc α) : List (Block α) :=
   let ordered := topo.filterMap s.find?
   let sources := ordered.filter fun n => n.comp.kind == .source
   let mux := ordered.find? fun n => n.comp.kind == .pmux
   let skip := match mux with
     | some m => m.name :: descendants s m.name
     | none => []
-  let sysBlock : PV α := .dict [("name", .str s.name), ("version", .str ver), ("phases", s.phases),
+  sources.map (fun n => { root := n, isMux := false, childs := childsOf s n.name skip }) ++
+    (match mux with
+     | some m => [{ root := m, isMux := true, childs := childsOf s m.name [] }]
+     | none => [])
+
+/-- `cdict`: `cdict[name] = [ {type, params, limits}, … ]` per entry -/
+def childsDoc (entries : List (String × List (Node α))) : PV α :=
+  .dict (entries.foldl (fun acc e => dictSet acc e.1 (.list (e.2.map fun n => PV.dict (dumpComp n.comp)))) [])
+
+def blockDoc (b : Block α) : PV α :=
+  .dict (dumpComp b.root.comp ++ [("childs", childsDoc b.childs)] ++
+    (if b.isMux then [("parents", .list (b.root.parents.map PV.str))] else []))
+
+def sysBlock (ver : String) (s : SysDesc α) : PV α :=
+  .dict [("name", .str s.name), ("version", .str ver), ("phases", s.phases),
     ("phase_conf", s.phaseConf), ("groups", s.groups), ("rails", s.rails)]
-  let d0 := sources.foldl (fun acc n =>
-    dictSet acc n.name (.dict (dumpComp n.comp ++ [("childs", childsDict s n.name skip)]))) [("system", sysBlock)]
-  let d1 := match mux with
-    | some m => dictSet d0 m.name (.dict (dumpComp m.comp ++
-        [("childs", childsDict s m.name []), ("parents", .list (m.parents.map PV.str))]))
-    | none => d0
-  .dict d1
+
+/-- the document of a layout: `sys[name] = block` in order, after the `"system"` entry -/
+def docOf (ver : String) (s : SysDesc α) (layout : List (Block α)) : PV α :=
+  .dict (layout.foldl (fun acc b => dictSet acc b.root.name (blockDoc b)) [("system", sysBlock ver s)])
+
+/-- `System.save` as a document value; `ver = sysloss.__version__`, `topo` = observed topological order -/
+def save (ver : String) (topo : List String) (s : SysDesc α) : PV α :=
+  docOf ver s (layoutOf topo s)
 
 /-! ### from_file -/
 
@@ -149,30 +170,78 @@ def resolveParent (st : List (Node α)) (p : String) : Except Err (Node α) :=
     if p == "" then (match st.head? with | some n => .ok n | none => .error (.value "Parent name not found"))
     else .error (.value ("Parent name \"" ++ p ++ "\" not found!"))
 
+/-- `len(parent) > len(set(parent))` -/
+def hasDup : List String → Bool
+  | [] => false
+  | a :: rest => rest.contains a || hasDup rest
+
 /-- `add_comp(parents, comp=c)` on the loader's state (group and rail are not passed) -/
 def addComp (st : List (Node α)) (parents : List String) (isList : Bool) (c : Comp α) :
     Except Err (List (Node α)) := do
-  if isList then
-    if parents.eraseDups.length < parents.length then throw (.value "parent paramenter contains duplicates!")
-    if c.kind.ctype != .PMUX then throw (.value "only PMux component can have multiple inputs!")
-  let ps ← parents.mapM (resolveParent st)
-  if nameTaken st c.name then throw (.value ("Component name \"" ++ c.name ++ "\" is already used!"))
-  for p in ps do
-    if !(p.comp.kind.acceptsChild c.kind.ctype) then
-      throw (.value ("Parent " ++ p.name ++ " does not allow child of type " ++ c.kind.ctype.name))
-  if c.kind.ctype == .PMUX && st.any (fun n => n.comp.kind.ctype == .PMUX) then
-    throw (.value "a system can only have one PMux")
-  pure (st ++ [{ comp := c, parents := ps.map Node.name }])
+  if isList && hasDup parents then throw (.value "parent paramenter contains duplicates!")
+  else if isList && c.kind.ctype != .PMUX then throw (.value "only PMux component can have multiple inputs!")
+  else
+    let ps ← parents.mapM (resolveParent st)
+    if nameTaken st c.name then throw (.value ("Component name \"" ++ c.name ++ "\" is already used!"))
+    else match ps.find? (fun p => !(p.comp.kind.acceptsChild c.kind.ctype)) with
+      | some p => throw (.value ("Parent " ++ p.name ++ " does not allow child of type " ++ c.kind.ctype.name))
+      | none =>
+        if c.kind.ctype == .PMUX && st.any (fun n => n.comp.kind.ctype == .PMUX) then
+          throw (.value "a system can only have one PMux")
+        else pure (st ++ [{ comp := c, parents := ps.map Node.name }])
 
-/-- one element of a `childs[p]` list → the constructor call of system.py 173-286
-    (`none` = a `type` the loader has no branch for: silently skipped) -/
-def loadChild (c : PV α) : Except Err (Option (Comp α)) := do
+/-- the branch of system.py 180-286 for component type `t`: which constructor is called with which keywords
+    (`none` = a `type` the loader has no branch for: silently skipped).  `cp` = `c["params"]`; the six values
+    read before the branch (system.py 173-179) are passed in. -/
+def childBranch (t : String) (cp : PV α) (lim : Args α) (iq ig rs iis rt : PV α) :
+    Except Err (Option (Kind × Args α)) := do
+  let zero : PV α := .float 0
+  if t == "CONVERTER" then
+    let vo ← getMand cp "vo"
+    let eff ← getMand cp "eff"
+    pure (some (.converter, [("vo", vo), ("eff", eff), ("iq", iq)] ++ lim ++ [("iis", iis), ("rt", rt)]))
+  else if t == "LINREG" then
+    let vo ← getMand cp "vo"
+    let vdrop ← getOpt cp "vdrop" zero
+    pure (some (.linreg, [("vo", vo), ("vdrop", vdrop), ("iq", iq), ("ig", ig)] ++ lim ++ [("iis", iis), ("rt", rt)]))
+  else if t == "SLOSS" then
+    if (← pyLookup cp "rs").isSome then
+      let rs ← getMand cp "rs"
+      pure (some (.rloss, [("rs", rs), ("rt", rt)] ++ lim))
+    else
+      let vdrop ← getMand cp "vdrop"
+      pure (some (.vloss, [("vdrop", vdrop), ("rt", rt)] ++ lim))
+  else if t == "LOAD" then
+    let loss ← getOpt cp "loss" (.bool false)
+    if (← pyLookup cp "pwr").isSome then
+      let pwr ← getMand cp "pwr"
+      let pwrs ← getOpt cp "pwrs" zero
+      pure (some (.pload, [("pwr", pwr)] ++ lim ++ [("pwrs", pwrs), ("rt", rt), ("loss", loss)]))
+    else if (← pyLookup cp "rs").isSome then
+      let rs ← getMand cp "rs"
+      pure (some (.rload, [("rs", rs), ("rt", rt)] ++ lim ++ [("loss", loss)]))
+    else
+      let ii ← getMand cp "ii"
+      pure (some (.iload, [("ii", ii)] ++ lim ++ [("iis", iis), ("rt", rt), ("loss", loss)]))
+  else if t == "PSWITCH" then
+    pure (some (.pswitch, [("rs", rs), ("ig", ig)] ++ lim ++ [("iis", iis), ("rt", rt)]))
+  else if t == "RECTIFIER" then
+    let vdrop ← getOpt cp "vdrop" zero
+    pure (some (.rectifier, [("vdrop", vdrop), ("rs", rs), ("ig", ig), ("iq", iq)] ++ lim ++ [("rt", rt)]))
+  else pure none
+
+/-- `limits = _get_opt(c, "limits", LIMITS_DEFAULT)`: absent → the keyword default -/
+def blockLimits (c : PV α) : Args α :=
+  match c with
+  | .dict d => (match d.lookup "limits" with | some l => [("limits", l)] | none => [])
+  | _ => []
+
+/-- one element of a `childs[p]` list → the constructor call of system.py 173-286: name, kind, keywords -/
+def childCall (c : PV α) : Except Err (Option (String × Kind × Args α)) := do
   let zero : PV α := .float 0
   let cp ← pySub c "params"
   let cname ← strOf (← getMand cp "name")
-  let lim := match c with
-    | .dict d => (match d.lookup "limits" with | some l => [("limits", l)] | none => [])
-    | _ => []
+  let lim := blockLimits c
   let iq ← getOpt cp "iq" zero
   let ig ← getOpt cp "ig" zero
   let rs ← getOpt cp "rs" zero
@@ -180,53 +249,34 @@ def loadChild (c : PV α) : Except Err (Option (Comp α)) := do
   let rt ← getOpt cp "rt" zero
   let ty ← pySub c "type"
   match ty with
-  | .str "CONVERTER" =>
-    let vo ← getMand cp "vo"
-    let eff ← getMand cp "eff"
-    some <$> mkComp .converter cname ([("vo", vo), ("eff", eff), ("iq", iq)] ++ lim ++ [("iis", iis), ("rt", rt)])
-  | .str "LINREG" =>
-    let vo ← getMand cp "vo"
-    let vdrop ← getOpt cp "vdrop" zero
-    some <$> mkComp .linreg cname
-      ([("vo", vo), ("vdrop", vdrop), ("iq", iq), ("ig", ig)] ++ lim ++ [("iis", iis), ("rt", rt)])
-  | .str "SLOSS" =>
-    if (← pyLookup cp "rs").isSome then
-      let rs ← getMand cp "rs"
-      some <$> mkComp .rloss cname ([("rs", rs), ("rt", rt)] ++ lim)
-    else
-      let vdrop ← getMand cp "vdrop"
-      some <$> mkComp .vloss cname ([("vdrop", vdrop), ("rt", rt)] ++ lim)
-  | .str "LOAD" =>
-    let loss ← getOpt cp "loss" (.bool false)
-    if (← pyLookup cp "pwr").isSome then
-      let pwr ← getMand cp "pwr"
-      let pwrs ← getOpt cp "pwrs" zero
-      some <$> mkComp .pload cname ([("pwr", pwr)] ++ lim ++ [("pwrs", pwrs), ("rt", rt), ("loss", loss)])
-    else if (← pyLookup cp "rs").isSome then
-      let rs ← getMand cp "rs"
-      some <$> mkComp .rload cname ([("rs", rs), ("rt", rt)] ++ lim ++ [("loss", loss)])
-    else
-      let ii ← getMand cp "ii"
-      some <$> mkComp .iload cname ([("ii", ii)] ++ lim ++ [("iis", iis), ("rt", rt), ("loss", loss)])
-  | .str "PSWITCH" =>
-    some <$> mkComp .pswitch cname ([("rs", rs), ("ig", ig)] ++ lim ++ [("iis", iis), ("rt", rt)])
-  | .str "RECTIFIER" =>
-    let vdrop ← getOpt cp "vdrop" zero
-    some <$> mkComp .rectifier cname ([("vdrop", vdrop), ("rs", rs), ("ig", ig), ("iq", iq)] ++ lim ++ [("rt", rt)])
+  | .str t =>
+    match ← childBranch t cp lim iq ig rs iis rt with
+    | some (k, a) => pure (some (cname, k, a))
+    | none => pure none
   | _ => pure none
+
+/-- one element of a `childs[p]` list → the component (`none`: skipped) -/
+def loadChild (c : PV α) : Except Err (Option (Comp α)) := do
+  match ← childCall c with
+  | some (n, k, a) => some <$> mkComp k n a
+  | none => pure none
+
+/-- one element of `childs[p]`: build it and attach it under `p` -/
+def childStep (p : String) (st : List (Node α)) (c : PV α) : Except Err (List (Node α)) := do
+  match ← loadChild c with
+  | some comp => addComp st [p] false comp
+  | none => pure st
+
+/-- one `childs` entry `p: [ … ]` -/
+def entryStep (st : List (Node α)) (e : String × PV α) : Except Err (List (Node α)) :=
+  match e.2 with
+  | .list cs => cs.foldlM (childStep e.1) st
+  | _ => .error (outside "childs entry is not a list")
 
 /-- the `childs` loop of one block -/
 def loadChilds (st : List (Node α)) (childs : PV α) : Except Err (List (Node α)) :=
   match childs with
-  | .dict d =>
-    d.foldlM (init := st) fun st (p, lst) =>
-      match lst with
-      | .list cs =>
-        cs.foldlM (init := st) fun st c => do
-          match ← loadChild c with
-          | some comp => addComp st [p] false comp
-          | none => pure st
-      | _ => .error (outside "childs entry is not a list")
+  | .dict d => d.foldlM entryStep st
   | _ => .error (outside "childs is not a dict")
 
 /-- one top-level entry after `"system"` (system.py 150-170); `first` = `e == 1` -/
@@ -236,9 +286,7 @@ def loadBlock (st : List (Node α)) (first : Bool) (key : String) (blk : PV α) 
   let isSrc := match ty with | .str "SOURCE" => true | _ => false
   let vo ← if isSrc then getMand (← pySub blk "params") "vo" else pure zero
   let rs ← getOpt (← pySub blk "params") "rs" zero
-  let lim := match blk with
-    | .dict d => (match d.lookup "limits" with | some l => [("limits", l)] | none => [])
-    | _ => []
+  let lim := blockLimits blk
   let st ←
     if first then do
       let c ← mkComp .source key ([("vo", vo), ("rs", rs)] ++ lim)
